@@ -130,6 +130,8 @@ type group struct {
 	// world: digest of EVERY shared object of the group, taken before the first call. It is compared after every
 	// call of any entry: an argument may be damaged by a later call of another entry (e.g. through a pool)
 	world *snapSet
+	// slow-path conversions for the pool stress runs of the concurrent suite
+	stress []*stressOp
 }
 
 // damaged returns the shared objects of the group that no longer have their original content.
@@ -290,6 +292,9 @@ func (g *group) get() []*entry {
 	g.once.Do(func() {
 		b := &builder{g: g}
 		g.build(b)
+		for _, s := range g.stress {
+			s.want = s.run() // sequential result
+		}
 		g.world = snapArgs(g.entries...)
 		known := map[string]bool{}
 		for i, e := range g.entries {
@@ -658,6 +663,7 @@ func TestC18_Concurrent(t *testing.T) {
 			t.FailNow()
 		}
 		defer runtime.GOMAXPROCS(runtime.GOMAXPROCS(0))
+		stressPool(t, test, g)
 		sweepConcurrent(t, test, es)
 		rapid.Check(t, func(rt *rapid.T) { propConcurrent(rt, test, es) })
 	})
@@ -695,6 +701,71 @@ func runPlans(p int, plans [][]step) (results [][][]byte, panics []string) {
 	close(start)
 	done.Wait()
 	return
+}
+
+// stressPool: 48 and 64 goroutines, each on a P of its own (GOMAXPROCS = g, the OS interleaves the threads),
+// released by a barrier, all inside slow-path conversions that hold scratch values of the process-wide big.Int
+// pool for milliseconds (fields of different packages in the same run). Every result must equal the sequential
+// one; a panic in any goroutine is a failure, reported with its stack.
+func stressPool(t *testing.T, test string, g *group) {
+	if len(g.stress) == 0 {
+		return
+	}
+	if os.Getenv("VERIF_C18_STRESS") == "0" {
+		return // jobs that repeat the concurrent suite in another build variant skip the stress run (conf/c18.py)
+	}
+	rounds := 2
+	for _, n := range []int{48, 64} {
+		runtime.GOMAXPROCS(n)
+		type res struct {
+			op  *stressOp
+			out []byte
+			pan string
+		}
+		results := make([][]res, n)
+		var ready, done sync.WaitGroup
+		start := make(chan struct{})
+		ready.Add(n)
+		done.Add(n)
+		for i := 0; i < n; i++ {
+			go func(i int) {
+				defer done.Done()
+				ready.Done()
+				<-start
+				for r := 0; r < rounds; r++ {
+					op := g.stress[(i*7+r*5)%len(g.stress)]
+					func() {
+						defer func() {
+							if x := recover(); x != nil {
+								buf := make([]byte, 6000)
+								buf = buf[:runtime.Stack(buf, false)]
+								results[i] = append(results[i], res{op, nil, fmt.Sprintf("%v\n%s", x, buf)})
+							}
+						}()
+						results[i] = append(results[i], res{op, op.run(), ""})
+					}()
+				}
+			}(i)
+		}
+		ready.Wait()
+		close(start)
+		done.Wait()
+		for i := range results {
+			for _, r := range results[i] {
+				if r.pan != "" {
+					t.Fatalf("POOL STRESS: %d goroutines inside slow-path conversions: goroutine %d panicked in %s: %s", n, i, r.op.name, r.pan)
+				}
+				if !bytes.Equal(r.out, r.op.want) {
+					t.Fatalf("POOL STRESS: %d goroutines inside slow-path conversions: goroutine %d obtained %s from %s, alone it returns %s",
+						n, i, short(r.out), r.op.name, short(r.op.want))
+				}
+			}
+		}
+		if ch := g.damaged(); len(ch) > 0 {
+			t.Fatalf("PURITY: shared object(s) %v changed during the pool stress run", ch)
+		}
+		rep.Case(test, fmt.Sprintf("pool-stress g=%d", n), true, "pool_stress:g>=48", fmt.Sprintf("pool_stress:g=%d", n))
+	}
 }
 
 // sweepConcurrent is the deterministic floor under the sampled mixes: every entry point is run by
